@@ -217,6 +217,44 @@ theorem charged_nftTransfer_sameShard (env : Env) (c : Call) (ctx ctx' : Ctx) (o
 -- (ESDTNFTChangeCreateOwner is priced in the schedule but charged by no function: `gas_*` of C06 show the hand-over
 -- function returns GasRemaining 0 and forwards nothing).
 
+/-- FULL (binding, regenerated from the source by go/ast on every run): every function object's price field is refreshed
+    in `SetNewGasConfig` from the `BuiltInCost` entry of its OWN name … -/
+theorem setter_bindings : Facts.setterGasField =
+    [("changeOwnerAddress.gasCost", "ChangeOwnerAddress"),
+     ("claimDeveloperRewards.gasCost", "ClaimDeveloperRewards"),
+     ("esdtBurn.funcGasCost", "ESDTBurn"),
+     ("esdtLocalBurn.funcGasCost", "ESDTLocalBurn"),
+     ("esdtLocalMint.funcGasCost", "ESDTLocalMint"),
+     ("esdtNFTAddQuantity.funcGasCost", "ESDTNFTAddQuantity"),
+     ("esdtNFTAddUri.funcGasCost", "ESDTNFTAddURI"),
+     ("esdtNFTBurn.funcGasCost", "ESDTNFTBurn"),
+     ("esdtNFTCreate.funcGasCost", "ESDTNFTCreate"),
+     ("esdtNFTTransfer.funcGasCost", "ESDTNFTTransfer"),
+     ("esdtTransfer.funcGasCost", "ESDTTransfer"),
+     ("saveKeyValueStorage.funcGasCost", "SaveKeyValue"),
+     ("esdtNFTMultiTransfer.funcGasCost", "ESDTNFTMultiTransfer"),
+     ("saveUserName.gasCost", "SaveUserName"),
+     ("esdtNFTupdate.funcGasCost", "ESDTNFTUpdateAttributes")] := by decide
+
+/-- … and the factory constructs every function object with the `BuiltInCost` entry of its own name (so the price is right
+    from the first call on, before any schedule change) -/
+theorem factory_bindings : Facts.factoryGasField =
+    [("NewClaimDeveloperRewardsFunc", "ClaimDeveloperRewards"),
+     ("NewChangeOwnerAddressFunc", "ChangeOwnerAddress"),
+     ("NewSaveUserNameFunc", "SaveUserName"),
+     ("NewSaveKeyValueStorageFunc", "SaveKeyValue"),
+     ("NewESDTTransferFunc", "ESDTTransfer"),
+     ("NewESDTBurnFunc", "ESDTBurn"),
+     ("NewESDTLocalBurnFunc", "ESDTLocalBurn"),
+     ("NewESDTLocalMintFunc", "ESDTLocalMint"),
+     ("NewESDTNFTAddQuantityFunc", "ESDTNFTAddQuantity"),
+     ("NewESDTNFTBurnFunc", "ESDTNFTBurn"),
+     ("NewESDTNFTCreateFunc", "ESDTNFTCreate"),
+     ("NewESDTNFTTransferFunc", "ESDTNFTTransfer"),
+     ("NewESDTNFTUpdateAttributesFunc", "ESDTNFTUpdateAttributes"),
+     ("NewESDTNFTAddUriFunc", "ESDTNFTAddURI"),
+     ("NewESDTNFTMultiTransferFunc", "ESDTNFTMultiTransfer")] := by decide
+
 -- non-vacuity: a complete map of distinct primes is accepted; dropping one entry rejects it
 def sampleMap : GasMap :=
   [("BuiltInCost.ChangeOwnerAddress", 11), ("BuiltInCost.ClaimDeveloperRewards", 13), ("BuiltInCost.SaveUserName", 17),
